@@ -70,9 +70,3 @@ pub broadcast axiom fn axiom_into_map_hashmap<K, V>(h: HashMap<K, V>)
 pub assume_specification<K, V, S, A, I>[ <HashMap<K, V, S, A> as Extend<(K, V)>>::extend::<I> ](m: &mut HashMap<K, V, S, A>, it: I)
     where K: Eq + std::hash::Hash, S: std::hash::BuildHasher, A: std::alloc::Allocator, I: IntoIterator<Item = (K, V)>
     ensures final(m)@ == old(m)@.union_prefer_right(into_map::<K, V, I>(it));
-
-// ---- slice functions that a changed caller may start to use (true but weak contracts, so that such a change is DECIDED by the
-//      caller's obligations instead of being a front-end error): sort_by_key permutes, contains returns some boolean
-pub assume_specification<T, K: Ord, F: FnMut(&T) -> K>[ <[T]>::sort_by_key ](s: &mut [T], f: F)
-    ensures final(s)@.to_multiset() == old(s)@.to_multiset();
-pub assume_specification<T: PartialEq>[ <[T]>::contains ](s: &[T], x: &T) -> (r: bool);
